@@ -7,6 +7,14 @@ HERE = os.path.dirname(os.path.dirname(os.path.abspath(__file__)))
 
 # id: (category, engine, technique, text, note, design_ref)
 CHECKS = {
+    "C01": (
+        "exploration",
+        "enum",
+        "bounded-exhaustive enumeration of PDU values through the real primitive/PDU/bytes round trip against an independent reference codec in both directions",
+        "Values of all seven PDU types over per-field domains (AE titles, UIDs of 1..64 characters, context IDs, all legal result/source/reason codes, 1..3 presentation contexts x 1..3 transfer syntaxes, every combination and multiplicity <= 2 of the optional user-information sub-item kinds, user-identity types 1..5 with field lengths 1..300, P-DATA lists of 1..3 PDVs up to 70000 bytes): the produced bytes are decoded by a strict reference decoder that verifies every length field, compared by value and byte for byte with the PS3.8 layout, decoded and re-encoded by the implementation, converted back to primitives, and the reference encoding of the same value is decoded by the implementation.",
+        "Reference codec transcribed from PS3.8 9.3 / PS3.7 D.3.3 (vk/ref/codec.py); sub-item order is not prescribed by the standard and is compared as a multiset.",
+        "3/C01",
+    ),
     "C03": (
         "model_checking",
         "sim",
@@ -150,6 +158,14 @@ CHECKS = {
         "A byte-level raw peer runs two consecutive C-FIND / C-GET operations (equal or different message IDs) whose handler polls is_cancelled before each yield, and sends C-CANCEL with the ID of the running, the other or neither operation while idle before / between / after the operations and at every poll (handler held until the provider thread has taken the cancel in), plus 9..12 stale cancels; default schedule for all 166 scenarios and every schedule with <= 1 deviation for the C-FIND n=1 family.  A handler may see True only at the poll following a cancel with its own ID that arrived while it ran.",
         "Same trusted base as C05/C06.",
         "3/C23",
+    ),
+    "C24": (
+        "exploration",
+        "enum",
+        "bounded-exhaustive enumeration of peer response sequences through the real SCU response iterators with a scripted DIMSE provider, against a reference iteration",
+        "Every peer response sequence up to length 3 (thorough 4) over 10/11 kinds (Pending with valid / undecodable / missing identifier, final statuses of every category with and without identifiers, response without Status, wrong message type, C-STORE sub-operation requests on valid and invalid contexts, nothing until the timeout) is fed to the real send_c_find / send_c_get / send_c_move iterators and 7 single-response calls x 4 peer behaviours; yields are compared one to one with a reference iteration, aborts where documented, and the AE lock and reactor checkpoint are inspected at every suspension and at the end.",
+        "DIMSE provider is scripted; identifiers that make pydicom raise stand for undecodable data.",
+        "3/C24",
     ),
     "C26": (
         "model_checking",
